@@ -373,3 +373,36 @@ PROPS["C08"] = {
 PROPS["C11"]["harnesses"].append({"name": "config", "pkg": "harness/config", "driver": "MassVerif/Driver/Config.lean",
                                   "quick": {"n": 60, "len": 30}, "thorough": {"n": 1500, "len": 60}, "search": {"n": 800, "len": 60}})
 PROPS["C11"]["drivers_mod"].append("MassVerif.Driver.Config")
+
+PROPS["C17"] = {
+    "props": ["MassVerif.Props.C17"], "drivers_mod": ["MassVerif.Driver.Fractal"],
+    "harnesses": [{"name": "fractal", "pkg": "harness/fractal", "driver": "MassVerif/Driver/Fractal.lean",
+                   "quick": {"n": 40, "len": 40}, "thorough": {"n": 600, "len": 80}, "search": {"n": 300, "len": 80}, "timeout": 900}],
+    "level_text": "Unbounded proof (Lean 4) over a message-level model of the local superior's task router (any sequence of add/remove "
+                  "task, subscribe/unsubscribe, report and read labels; any number of tasks, collectors and pending reports): in every "
+                  "reachable state a report buffered for a task names that task, and everything read, buffered or waiting was reported for "
+                  "that task by that collector with that payload (tag and payload unmodified); a task's channel is a FIFO queue (a report "
+                  "joins the end of the queue of the task it names and of no other, the waiter reads the oldest, order is kept, other "
+                  "tasks' queues are untouched), never above its capacity; after RemoveTask the task has no channel, its waiting senders "
+                  "are released and a report naming it is dropped (no delivery to a removed task); a broadcast task is handed exactly "
+                  "once to every subscribed collector and to nobody else, a later subscriber gets the current task once, a targeted task "
+                  "goes to its target only, no other label hands out requests; a full channel holds up only its own senders; through any "
+                  "number of relays a report keeps task and payload and is tagged with the connection it came in on. Regenerated code facts "
+                  "carry the runtime side: hand-over outside the cache lock with recovery from a closed channel (after the fix of F13), "
+                  "RemoveTask closes under the lock, subscribe/broadcast serialised (after the fix of F15), pool stop closes the listener "
+                  "(after the fix of F14). Correspondence: real LocalSuperior with scripted collectors on generated label sequences "
+                  "(requests per collector and reads per task compared after every label), real TCP topologies with one and two relay "
+                  "levels (RemoteSuperior + CollectorPool + Conn), watchdogs on every add/remove/subscribe/stop.",
+    "level_note": "Partial by nature: promptness under real TCP/timers (keep-alive, 30 s redial) and goroutine interleavings inside one "
+                  "label are exercised (watchdogs, overlapping Subscribe/AddTask scenario), not modelled; 'in order per connection' is "
+                  "proved for the task channel (the router) - on the wire a priority message (proof/signature) may overtake a normal one "
+                  "(qualities) by design of the two-lane connection; a targeted task reaches the directly connected collector it names - "
+                  "behind a relay it is forwarded to all of the relay's collectors (the relay does not know which one holds the space). "
+                  "Trusted: Lean kernel; Go channels (FIFO among blocked senders), sync.Mutex; the scripted collectors.",
+    "trusted_base": ["Go runtime: buffered channels are FIFO and blocked senders are served in arrival order; close wakes blocked senders with a panic that submitCollectorMsg recovers",
+                     "massutil/ccache (LRU of 100 tasks): tasks beyond 100 open at once are evicted silently - not modelled (the miner keeps a handful open)",
+                     "fractal/connection (framing, keep-alive) and protocol codec (C16) under the network scenarios"],
+    "assumptions": ["hand-written model Model/Fractal.lean of fractal/superior.go; agreement checked by the correspondence stream on every run",
+                    "task ids are fresh (uuid.New in the callers): a re-added id replaces the channel in code and model alike, the FIFO theorems speak about one incarnation",
+                    "LocalCollector.trySlots (the collector-side proof search, same shape as the miner's with allowAhead = 10) is not modelled"],
+}
